@@ -217,6 +217,26 @@ Fixpoint do_run (fuel : nat) (p : option policy) (env : nat -> outcome * bool) (
       else let s' := dstep p sh r (env (s_done sh)) in do_run fuel' p env (fst s') (snd s')
   end.
 
+(* ---- what IsIdempotent answers (session.go) ------------------------------------------------ *)
+(* Batch.IsIdempotent: `for _, entry := range b.Entries { if !entry.Idempotent { return false } }; return true`.
+   Query.IsIdempotent: the flag set by defaultsFromSession from ClusterConfig.DefaultIdempotence when
+   Session.Query creates the query, replaced by Query.Idempotent(v) if the application calls it. *)
+Inductive idem_src :=
+| IBatch (entries : list bool)                              (* the Idempotent flag of every entry, in order *)
+| IQuery (cluster_default : bool) (override : option bool).
+
+Fixpoint batch_idempotent (entries : list bool) : bool :=
+  match entries with
+  | [] => true
+  | e :: rest => if negb e then false else batch_idempotent rest
+  end.
+
+Definition is_idempotent (src : idem_src) : bool :=
+  match src with
+  | IBatch es => batch_idempotent es
+  | IQuery d ov => match ov with Some v => v | None => d end
+  end.
+
 (* ---- executeQuery: the idempotence gate (query_executor.go:88-93) ----------------------- *)
 Inductive mode := MSequential | MSpeculative (k : Z).
 Definition exec_mode (idem : bool) (k : Z) : mode :=
